@@ -2,10 +2,17 @@
 the real `re` engine vs the Lean model (`drv_c18`), and the property oracle (an independent
 re-implementation of the property's grammar, no regexes) on every implementation result.
 
+The oracle judges exactly what the property text says - which strings / integers are accepted,
+that a string that is neither a host name nor an IP literal is refused with ValueError, that
+printing and parsing gives an equal object, that nothing but ValueError / TypeError escapes - and
+nothing else: which of the two exceptions a refusal uses, the lower-casing of the returned
+protocol, whether non-ASCII decimal digits count as a port are compared with the MODEL only (a
+difference there is a disagreement, not a property failure).
+
 The driver does not depend on the generated facts, so everything here also runs when a proof
-obligation over the facts no longer checks; in that case the fact-directed witness synthesis
-(`witness_cases`: generated class minus spec class, anchor kind, match mode) is what usually
-produces the concrete failing input first."""
+obligation over the facts no longer checks.  The position tables of the facts (the real function
+on every code point in every context) are judged by the oracle here, so a class that is too wide
+or too narrow yields the concrete failing string."""
 import ipaddress
 import itertools
 import os
@@ -13,7 +20,7 @@ import random
 import re
 import sys
 import unicodedata
-from multiprocessing import Pool
+from concurrent.futures import ThreadPoolExecutor
 
 from harness.base import Results, corpus_lines
 from tools.facts.common import fresh_import
@@ -24,10 +31,11 @@ LET = frozenset('abcdefghijklmnopqrstuvwxyzABCDEFGHIJKLMNOPQRSTUVWXYZ')
 DIG = frozenset('0123456789')
 PROTO_TAIL = LET | DIG | frozenset('+-.')
 LABEL = LET | DIG | frozenset('-_')
-ALPHABET = ['a', 'Z', '0', '-', '_', '.', '+', ',', '/', '\n', ' ', 'é', 'ſ', '٣']
+ALPHABET = ['a', 'Z', '0', '-', '_', '.', '+', ',', '/', '\n', ' ', 'é', 'ſ', '٣', '\u212a']
 ALPHABET2 = ['a', '1', '.', ':', '[', ']', '%', '/']
 
 util = None
+_POOL = ThreadPoolExecutor(max_workers=3)      # driver processes answering concurrently
 
 
 def init(repo):
@@ -141,20 +149,24 @@ def o_ip(s):
 
 
 def expect_port(v, maxdigits):
-    """-> ('ok', n) | ('ValueError',) | ('TypeError',) | ('ok?', n) (may be accepted as n or
-    refused) | None (don't care)"""
+    """what the property text fixes about `validate_port(v)`:
+    ('ok', n)   must be accepted and n returned     (integers and ASCII digit strings in 1..65535)
+    ('ok?', n)  may be accepted as n or refused     (True; strings of non-ASCII decimal digits -
+                                                     the text does not say whether those are digits)
+    ('refuse',) must be refused (ValueError or TypeError, the text does not say which)
+    None        don't care (beyond the interpreter's int-string digit limit)"""
     if isinstance(v, bool):       # an int subclass; the property does not say whether it counts
-        return ('ok?', 1) if v else ('ValueError?',)
+        return ('ok?', 1) if v else ('refuse',)
     if isinstance(v, int):
-        return ('ok', int(v)) if 1 <= v <= 65535 else ('ValueError',)
+        return ('ok', int(v)) if 1 <= v <= 65535 else ('refuse',)
     if isinstance(v, str):
         n = o_decimal_value(v)
-        if n is None:
-            return ('ValueError',)
+        if n is None or not 1 <= n <= 65535:
+            return ('refuse',)
         if maxdigits and len(v) > maxdigits:
-            return None if 1 <= n <= 65535 else ('ValueError',)
-        return ('ok', n) if 1 <= n <= 65535 else ('ValueError',)
-    return ('TypeError',)
+            return None
+        return ('ok', n) if all(c in DIG for c in v) else ('ok?', n)
+    return ('refuse',)
 
 
 def classify_family(fn, s):
@@ -210,10 +222,12 @@ def table_for(strings):
     return tab
 
 
-def fmt_table(tab):
-    if not tab:
-        return ''
-    return ' | ' + ' '.join(f'{enc(k)}={enc(v)}' for k, v in sorted(tab.items()))
+def fmt_table(tab, lowers=()):
+    """` | ` + the graph of the IPv6 library on the strings concerned + the graph of the real
+    `str.lower` (tokens `L:<s>=<s.lower()>`) on the non-ASCII ones the model will lower-case"""
+    toks = [f'{enc(k)}={enc(v)}' for k, v in sorted(tab.items())]
+    toks += [f'L:{enc(x)}={enc(x.lower())}' for x in sorted(set(lowers)) if not x.isascii()]
+    return ' | ' + ' '.join(toks) if toks else ''
 
 
 # ---------------------------------------------------------------- one case on the implementation
@@ -221,7 +235,7 @@ VT = (ValueError, TypeError)
 
 
 class Case:
-    __slots__ = ('op', 'args', 'line', 'impl', 'viol')
+    __slots__ = ('op', 'args', 'line', 'impl', 'viol', 'nocompare')
 
     def __init__(self, op, *args):
         self.op = op
@@ -229,6 +243,7 @@ class Case:
         self.line = None
         self.impl = None
         self.viol = None      # (key, why)
+        self.nocompare = False   # outside the quantifier / a callback contract: measured, not compared
 
     def record(self):
         if self.op == 'rx':
@@ -274,19 +289,14 @@ def run_case(c, maxdigits):
             c.line = 'proto ' + enc_val(v)
             try:
                 r = util.validate_protocol(v)
-                c.impl = 'ok ' + enc(r)
+                c.impl = 'ok ' + (enc(r) if isinstance(r, str) else '?' + type(r).__name__)
                 if not isinstance(v, str) or not o_protocol(v):
                     c.viol = ('c18:protocol-accepts-invalid:' + classify_family('protocol', v),
                               f'validate_protocol({v!r}) accepted; not a letter followed by >=1 of letters/digits/+/-/.')
-                elif r != v.lower():
-                    c.viol = ('c18:protocol-wrong-value', f'validate_protocol({v!r}) returned {r!r}')
             except VT as e:
                 c.impl = exc_name(e)
-                want = 'ValueError' if isinstance(v, str) else 'TypeError'
                 if isinstance(v, str) and o_protocol(v):
                     c.viol = ('c18:protocol-rejects-valid', f'validate_protocol({v!r}) raised {exc_name(e)}')
-                elif exc_name(e) != want:
-                    c.viol = ('c18:protocol-wrong-exception', f'validate_protocol({v!r}) raised {exc_name(e)}, expected {want}')
         elif op == 'host':
             v = a[0]
             c.line = 'host ' + enc_val(v)
@@ -294,15 +304,16 @@ def run_case(c, maxdigits):
                 r = util.is_valid_hostname(v)
                 c.impl = 'ok ' + ('True' if r else 'False')
                 if not isinstance(v, str):
-                    c.viol = ('c18:hostname-wrong-exception', f'is_valid_hostname({v!r}) returned instead of TypeError')
+                    if r:
+                        c.viol = ('c18:hostname-accepts-invalid:non-string', f'is_valid_hostname({v!r}) = {r!r}')
                 elif bool(r) != o_hostname(v):
                     fam = classify_family('hostname', v)
                     key = ('c18:hostname-accepts-invalid:' + fam) if r else 'c18:hostname-rejects-valid'
                     c.viol = (key, f'is_valid_hostname({v!r}) = {r}, the grammar says {o_hostname(v)}')
             except VT as e:
                 c.impl = exc_name(e)
-                if isinstance(v, str) or exc_name(e) != 'TypeError':
-                    c.viol = ('c18:hostname-wrong-exception', f'is_valid_hostname({v!r}) raised {exc_name(e)}')
+                if isinstance(v, str) and o_hostname(v):
+                    c.viol = ('c18:hostname-rejects-valid', f'is_valid_hostname({v!r}) raised {exc_name(e)}')
         elif op == 'classify':
             v = a[0]
             tab = table_for([v]) if isinstance(v, str) else {}
@@ -312,31 +323,26 @@ def run_case(c, maxdigits):
                 r = util.classify_host(v)
                 c.impl = 'ok ' + fmt_host(r)
                 if isip:
-                    if r != v:
-                        c.viol = ('c18:classify-wrong-value', f'classify_host({v!r}) = {r!r}')
+                    pass                          # (what comes back is compared with the model)
                 elif not isinstance(v, str):
-                    c.viol = ('c18:classify-wrong-exception', f'classify_host({v!r}) returned instead of TypeError')
-                elif o_hostname(v):
-                    if not (isinstance(r, str) and r == v):
-                        c.viol = ('c18:classify-wrong-value', f'classify_host({v!r}) = {r!r}, expected the name')
-                else:
+                    c.viol = ('c18:classify-accepts-invalid:non-string', f'classify_host({v!r}) = {r!r}')
+                elif not o_hostname(v):
                     ip = o_ip(v)
                     if ip is None:
                         c.viol = ('c18:classify-accepts-invalid:' + classify_family('hostname', v),
                                   f'classify_host({v!r}) = {r!r}: neither a valid host name nor an IP literal')
                     elif r != ip or type(r) is not type(ip):
-                        c.viol = ('c18:classify-wrong-value', f'classify_host({v!r}) = {r!r}, expected {ip!r}')
+                        c.viol = ('c18:classify-wrong-value', f'classify_host({v!r}) = {r!r}, it parses as {ip!r}')
             except VT as e:
                 c.impl = exc_name(e)
                 if isip:
                     c.viol = ('c18:classify-rejects-valid', f'classify_host({v!r}) raised {exc_name(e)}')
-                elif not isinstance(v, str):
-                    if exc_name(e) != 'TypeError':
+                elif isinstance(v, str):
+                    if o_hostname(v) or o_ip(v) is not None:
+                        c.viol = ('c18:classify-rejects-valid', f'classify_host({v!r}) raised {exc_name(e)}')
+                    elif exc_name(e) != 'ValueError':
+                        # the one place where the text names the exception: "or is refused with ValueError"
                         c.viol = ('c18:classify-wrong-exception', f'classify_host({v!r}) raised {exc_name(e)}')
-                elif o_hostname(v) or o_ip(v) is not None:
-                    c.viol = ('c18:classify-rejects-valid', f'classify_host({v!r}) raised {exc_name(e)}')
-                elif exc_name(e) != 'ValueError':
-                    c.viol = ('c18:classify-wrong-exception', f'classify_host({v!r}) raised {exc_name(e)}')
         elif op == 'port':
             v = a[0]
             c.line = f'port {maxdigits} ' + enc_val(v)
@@ -344,21 +350,23 @@ def run_case(c, maxdigits):
             try:
                 r = util.validate_port(v)
                 c.impl = f'ok {int(r)}'
-                if want is not None and want[0] not in ('ok', 'ok?'):
-                    c.viol = ('c18:port-accepts-invalid', f'validate_port({v!r}) = {r!r}, expected {want[0]}')
+                if want is not None and want[0] == 'refuse':
+                    c.viol = ('c18:port-accepts-invalid', f'validate_port({v!r}) = {r!r}; not a port in 1..65535')
                 elif want is not None and (not isinstance(r, int) or int(r) != want[1]):
                     c.viol = ('c18:port-wrong-value', f'validate_port({v!r}) = {r!r}, expected {want[1]}')
             except VT as e:
                 c.impl = exc_name(e)
                 if want is not None and want[0] == 'ok':
                     c.viol = ('c18:port-rejects-valid', f'validate_port({v!r}) raised {exc_name(e)}')
-                elif want is not None and not want[0].endswith('?') and want[0] != exc_name(e):
-                    c.viol = ('c18:port-wrong-exception', f'validate_port({v!r}) raised {exc_name(e)}, expected {want[0]}')
         elif op == 'split':
             s = a[0]
             c.line = 'split ' + enc(s)
-            h, p = util._split_address(s)
-            c.impl = enc(h) + ' ' + enc(p)
+            got = facts_c18.split_observe(util, s)       # through NetAddress.from_string, not by name
+            if got is None or not (isinstance(got[0], str) and isinstance(got[1], str)):
+                c.line = None                            # not observable on this tree: nothing to compare
+                c.impl = 'unobservable'
+            else:
+                c.impl = enc(got[0]) + ' ' + enc(got[1])
         elif op == 'ip4':
             s = a[0]
             c.line = 'ip4 ' + enc(s)
@@ -397,8 +405,6 @@ def run_case(c, maxdigits):
                     c.viol = ('c18:netaddress-accepts-invalid:' + why[0], f'NetAddress.from_string({v!r}): {why[1]}')
             except VT as e:
                 c.impl = exc_name(e)
-                if (exc_name(e) == 'TypeError') != (not isinstance(v, str)):
-                    c.viol = ('c18:netaddress-wrong-exception', f'NetAddress.from_string({v!r}) raised {exc_name(e)}')
         elif op == 'svc':
             v = a[0]
             c.line = 'svc ' + enc_val(v) + fmt_table(table_for([v]) if isinstance(v, str) else {})
@@ -410,8 +416,6 @@ def run_case(c, maxdigits):
                     c.viol = ('c18:service-accepts-invalid:' + why[0], f'Service.from_string({v!r}): {why[1]}')
             except VT as e:
                 c.impl = exc_name(e)
-                if (exc_name(e) == 'TypeError') != (not isinstance(v, str)):
-                    c.viol = ('c18:service-wrong-exception', f'Service.from_string({v!r}) raised {exc_name(e)}')
         elif op == 'mksvc':
             p, ad = a
             c.line = f'mksvc {enc_val(p)} {enc_val(ad)}' + fmt_table(table_for([ad]) if isinstance(ad, str) else {})
@@ -424,12 +428,38 @@ def run_case(c, maxdigits):
             why = svc_invalid(obj)
             if why and not c.viol:
                 c.viol = ('c18:service-accepts-invalid:' + why[0], f'Service({p!r}, {ad!r}) constructed: {why[1]}')
+        elif op == 'mksvco':
+            p, h, port = a
+            strs = [h] if isinstance(h, str) else ([str(h)] if isinstance(h, ipaddress.IPv6Address) else [])
+            c.line = f'mksvco {enc_val(p)} {enc_val(h)} {enc_val(port)}' + fmt_table(table_for(strs))
+            try:
+                addr = util.NetAddress(h, port)
+            except VT as e:
+                c.impl = 'addr-' + exc_name(e)
+                return
+            try:
+                obj = util.Service(p, addr)
+            except VT as e:
+                c.impl = exc_name(e)
+                if isinstance(p, str) and o_protocol(p):
+                    c.viol = ('c18:service-rejects-valid', f'Service({p!r}, {addr!r}) raised {exc_name(e)}')
+                return
+            c.impl, c.viol = roundtrip(obj, util.Service, fmt_svc, 'service', f'Service({p!r}, NetAddress({h!r}, {port!r}))')
+            why = svc_invalid(obj)
+            if why and not c.viol:
+                c.viol = ('c18:service-accepts-invalid:' + why[0], f'Service({p!r}, NetAddress(..)) constructed: {why[1]}')
         elif op == 'addrd':
             v, dh, dp = a
             strs = [x for x in (v, dh) if isinstance(x, str)]
             c.line = f'addrd {enc_val(v)} {enc_val(dh)} {enc_val(dp)}' + fmt_table(table_for(strs))
             try:
-                obj = util.NetAddress.from_string(v, default_func=util.NetAddress.default_host_and_port(dh, dp))
+                if dp is None and len(c.line) % 2:
+                    func = util.NetAddress.default_host(dh)         # = default_host_and_port(dh, None)
+                elif dh is None and len(c.line) % 2:
+                    func = util.NetAddress.default_port(dp)         # = default_host_and_port(None, dp)
+                else:
+                    func = util.NetAddress.default_host_and_port(dh, dp)
+                obj = util.NetAddress.from_string(v, default_func=func)
                 c.impl = 'ok ' + fmt_addr(obj)
                 why = addr_invalid(obj)
                 if why:
@@ -444,8 +474,11 @@ def run_case(c, maxdigits):
             def g(protocol, part):
                 return table.get((protocol, rev[int(part)]))
             strs = [v] + [x for x in table.values() if isinstance(x, str)]
-            c.line = ' '.join(['svcd', enc_val(v)] + g_entries(table)) + fmt_table(table_for(strs))
-            contract = table.get((None, 'r')) is None or isinstance(table.get((None, 'r')), str)
+            lowers = [x for x in (v, v.split('://', 1)[0], table.get((None, 'r'))) if isinstance(x, str)]
+            c.line = ' '.join(['svcd', enc_val(v)] + g_entries(table)) + fmt_table(table_for(strs), lowers)
+            # the default_func contract: the default protocol is a str or falsy (props/C18.json)
+            contract = not table.get((None, 'r')) or isinstance(table.get((None, 'r')), str)
+            c.nocompare = not contract      # what a contract-breaking callback causes is not compared
             try:
                 obj = util.Service.from_string(v, default_func=g)
                 c.impl = 'ok ' + fmt_svc(obj)
@@ -458,6 +491,24 @@ def run_case(c, maxdigits):
                 c.impl = exc_name(e)
                 if contract:    # the callback kept its contract, so this is the code's own failure
                     c.viol = ('c18:other-exception:svcd', f'Service.from_string({v!r}, default_func) raised AttributeError')
+        elif op in ('eqaddr', 'eqsvc'):
+            x1, y1, x2, y2 = a
+            strs = [t for t in a if isinstance(t, str)] + [str(t) for t in a if isinstance(t, ipaddress.IPv6Address)]
+            c.line = f'{op} {enc_val(x1)} {enc_val(y1)} {enc_val(x2)} {enc_val(y2)}' + fmt_table(table_for(strs))
+            cls = util.NetAddress if op == 'eqaddr' else util.Service
+            try:
+                o1, o2 = cls(x1, y1), cls(x2, y2)
+            except VT as e:
+                c.impl = exc_name(e)
+                return
+            eq, ne = o1 == o2, o1 != o2
+            c.impl = f'ok {1 if eq else 0}'
+            same_args = (enc_val(x1), enc_val(y1)) == (enc_val(x2), enc_val(y2))
+            if same_args and not (eq and not ne and hash(o1) == hash(o2)):
+                c.viol = (f'c18:{op}:equal-objects-differ',
+                          f'two {cls.__name__}({x1!r}, {y1!r}) objects: == {eq}, != {ne}, same hash {hash(o1) == hash(o2)}')
+            elif bool(eq) == bool(ne):
+                c.viol = (f'c18:{op}:eq-ne-inconsistent', f'{o1!r} vs {o2!r}: == {eq} and != {ne}')
         elif op == 'rx':
             mode, rxenc, name, s = a
             c.line = f'rx {mode} {rxenc} {enc(s)}'
@@ -486,8 +537,8 @@ def addr_invalid(obj):
 
 
 def svc_invalid(obj):
-    if not (isinstance(obj.protocol, str) and o_protocol(obj.protocol) and obj.protocol == obj.protocol.lower()):
-        return (classify_family('protocol', obj.protocol), f'protocol {obj.protocol!r} is not a valid lower-case protocol name')
+    if not (isinstance(obj.protocol, str) and o_protocol(obj.protocol)):
+        return (classify_family('protocol', obj.protocol), f'protocol {obj.protocol!r} is not a valid protocol name')
     return addr_invalid(obj.address)
 
 
@@ -533,15 +584,36 @@ def bool_port_refused(c):
     return isinstance(v, bool) and c.impl in ('TypeError', 'ValueError')
 
 
+def model_parallel(ctx, lines, parts=3):
+    """the driver's answers; big batches are split over a few driver processes"""
+    if len(lines) < 30000:
+        return ctx.model(lines)
+    size = (len(lines) + parts - 1) // parts
+    futs = [_POOL.submit(ctx.model, lines[i:i + size]) for i in range(0, len(lines), size)]
+    out = []
+    for f in futs:
+        r = f.result()
+        if r is None:
+            return None
+        out += r
+    return out
+
+
 def evaluate(ctx, cases, res, tag):
     md = ctx.facts.get('max_str_digits', sys.get_int_max_str_digits())
     for c in cases:
         run_case(c, md)
-    model = ctx.model([c.line for c in cases])
+    skipped = [c for c in cases if c.line is None]
+    if skipped:
+        res.count('not_observable:' + skipped[0].op, len(skipped))
+        cases = [c for c in cases if c.line is not None]
+    model = model_parallel(ctx, [c.line for c in cases])
     for i, c in enumerate(cases):
         if c.viol:
             res.violation(c.viol[0], c.record(), c.viol[1], impl=c.impl, scope=tag)
-        if model is not None and model[i] != c.impl and not bool_port_refused(c):
+        if c.nocompare:
+            res.count('outside_contract_not_compared:' + c.op)
+        elif model is not None and model[i] != c.impl and not bool_port_refused(c):
             res.disagreement(c.record(), c.impl, model[i], scope=tag, line=c.line[:300])
         res.count('op:' + c.op)
         if c.impl is not None and c.op not in ('split', 'show4', 'ip4', 'rx'):
@@ -553,91 +625,13 @@ def evaluate(ctx, cases, res, tag):
 
 
 # ---------------------------------------------------------------- code-point sweeps
-SWEEPS = {
-    'host': [('', 'b.com'), ('a', 'b.com'), ('ab', '.com'), ('', '.com'), ('ex.', 'om'), ('ex.', ''),
-             ('ex.com', ''), ('ex.com.', ''), ('', ''), ('ex.c', 'm\n')],
-    'proto': [('', 'cp'), ('t', ''), ('t', 'p'), ('tc', ''), ('tcp', '')],
-    'port': [('', ''), ('', '1'), ('1', ''), ('1', '1'), ('6553', '')],
-    'classify': [('a', 'b.com'), ('ex.com', ''), ('1.2.3.', ''), ('', '.2.3.4'), ('1.2.3.4', ''),
-                 ('::', ''), ('', '::1'), ('1', '')],
-}
-QUICK_SWEEPS = {'host': 10, 'proto': 5, 'port': 5, 'classify': 4}
-
-
-def rle(outs, lo):
-    parts = []
-    start, cur = lo, outs[0]
-    for i in range(1, len(outs)):
-        if outs[i] != cur:
-            parts.append(f'{start:x}-{lo + i - 1:x}={cur}')
-            start, cur = lo + i, outs[i]
-    parts.append(f'{start:x}-{lo + len(outs) - 1:x}={cur}')
-    return ' '.join(parts)
-
-
-def sweep_one(fn, pre, suf, lo, hi, md):
-    """(driver line, impl rle, [(code point, key, why)], accepted count)"""
-    outs, viols, tabstr = [], [], []
-    acc = 0
-    for cp in range(lo, hi + 1):
-        s = pre + chr(cp) + suf
-        try:
-            if fn == 'host':
-                r = util.is_valid_hostname(s)
-                outs.append('ok_True' if r else 'ok_False')
-                acc += bool(r)
-                if bool(r) != o_hostname(s):
-                    viols.append((cp, ('c18:hostname-accepts-invalid:' + classify_family('hostname', s)) if r
-                                  else 'c18:hostname-rejects-valid', f'is_valid_hostname({s!r}) = {r}'))
-            elif fn == 'proto':
-                r = util.validate_protocol(s)
-                outs.append('ok_' + enc(r))
-                acc += 1
-                if not o_protocol(s):
-                    viols.append((cp, 'c18:protocol-accepts-invalid:' + classify_family('protocol', s),
-                                  f'validate_protocol({s!r}) accepted'))
-            elif fn == 'port':
-                want = expect_port(s, md)
-                r = util.validate_port(s)
-                outs.append(f'ok_{int(r)}')
-                acc += 1
-                if want is not None and (want[0] != 'ok' or want[1] != r):
-                    viols.append((cp, 'c18:port-accepts-invalid', f'validate_port({s!r}) = {r!r}'))
-            else:
-                r = util.classify_host(s)
-                acc += 1
-                if isinstance(r, str):
-                    outs.append('N')
-                    if not o_hostname(s) or r != s:
-                        viols.append((cp, 'c18:classify-accepts-invalid:' + classify_family('hostname', s),
-                                      f'classify_host({s!r}) = {r!r}'))
-                else:
-                    outs.append(fmt_host(r))
-                    if isinstance(r, ipaddress.IPv6Address):
-                        tabstr.append(s)
-                    if o_hostname(s) or o_ip(s) != r:
-                        viols.append((cp, 'c18:classify-wrong-value', f'classify_host({s!r}) = {r!r}'))
-        except ValueError:
-            outs.append('ValueError')
-            bad = (fn == 'host') or (fn == 'proto' and o_protocol(s)) or \
-                (fn == 'port' and (expect_port(s, md) or ('',))[0] == 'ok') or \
-                (fn == 'classify' and (o_hostname(s) or o_ip(s) is not None))
-            if bad:
-                nm = {'host': 'hostname', 'proto': 'protocol'}.get(fn, fn)
-                viols.append((cp, f'c18:{nm}-rejects-valid', f'{fn}({s!r}) raised ValueError'))
-        except Exception as e:
-            outs.append(exc_name(e))
-            viols.append((cp, 'c18:other-exception:' + fn, f'{fn}({s!r}) raised {exc_name(e)}'))
-    line = f'sweep {fn} {md} {enc(pre)} {enc(suf)} {lo:x} {hi:x}' + fmt_table(table_for(tabstr))
-    return line, rle(outs, lo), viols[:20], acc
-
-
-def _sweep_job(args):
-    return sweep_one(*args)
+OPS = {'host': 'host', 'proto': 'proto', 'port': 'port', 'classify': 'classify'}
+NOT_REFUSAL_CAP = 4000
 
 
 def quick_segments(rng):
-    """code points that some str / re / unicodedata operation could plausibly treat specially"""
+    """code points that some str / re / unicodedata operation could plausibly treat specially (used
+    for the `classify_host` contexts on the quick tier; every other context is exhaustive)"""
     keep = set(range(0, 0x3400)) | set(range(0xD7F0, 0xE010)) | set(range(0xF900, 0x10000)) \
         | set(range(0x1D400, 0x1D800)) | set(range(0xE0000, 0xE0080)) | set(range(0x10FFF0, NCP))
     for cp in range(0x3400, NCP):
@@ -651,41 +645,148 @@ def quick_segments(rng):
     return facts_c18.to_ranges(sorted(c for c in keep if 0 <= c < NCP))
 
 
-def run_sweeps(ctx, res):
-    md = ctx.facts.get('max_str_digits', sys.get_int_max_str_digits())
-    segs = [[0, NCP - 1]] if ctx.deep else quick_segments(ctx.rng)
-    jobs = []
-    for fn, ctxs in SWEEPS.items():
-        use = ctxs if ctx.deep else ctxs[:QUICK_SWEEPS[fn]]
-        for pre, suf in use:
-            if ctx.deep:
-                step = 0x8000
-                jobs += [(fn, pre, suf, lo, min(lo + step, NCP) - 1, md) for lo in range(0, NCP, step)]
-            else:
-                jobs += [(fn, pre, suf, lo, hi, md) for lo, hi in segs]
-    if ctx.deep:
-        with Pool(min(6, os.cpu_count() or 1), initializer=init, initargs=(ctx.repo,)) as pool:
-            outs = pool.map(_sweep_job, jobs, chunksize=4)
-    else:
-        outs = [sweep_one(*j) for j in jobs]
-    model = ctx.model([o[0] for o in outs])
-    ncp = 0
-    for i, (job, (line, impl, viols, acc)) in enumerate(zip(jobs, outs)):
-        fn, pre, suf, lo, hi, _ = job
+_DECIMALS = None
+
+
+def oracle_candidates(runs, lo, hi):
+    """the code points of lo..hi on which the oracle has to be asked: ASCII, every Unicode decimal
+    digit, and everything the implementation did not plainly refuse.  On all others the grammar
+    refuses by construction (a protocol / host name / IP literal / digit string has no such
+    character) and the implementation refused too."""
+    global _DECIMALS
+    if _DECIMALS is None:
+        _DECIMALS = [c for c in range(128, NCP) if unicodedata.decimal(chr(c), None) is not None]
+    cand = set(c for c in range(0, 128) if lo <= c <= hi)
+    cand.update(c for c in _DECIMALS if lo <= c <= hi)
+    extra = 0
+    for rlo, rhi, o in runs:
+        if o not in ('ValueError', 'ok_False'):
+            for c in range(rlo, rhi + 1):
+                cand.add(c)
+                extra += 1
+                if extra > NOT_REFUSAL_CAP:
+                    break
+        if extra > NOT_REFUSAL_CAP:
+            break
+    return sorted(cand)
+
+
+def first_difference(impl_runs, model_text):
+    """first code point where the two run-length encodings differ -> (cp, impl, model)"""
+    mruns = []
+    for part in model_text.split(' '):
+        rng_, _, o = part.partition('=')
+        lo, _, hi = rng_.partition('-')
+        try:
+            mruns.append((int(lo, 16), int(hi, 16), o))
+        except ValueError:
+            return None
+    i = j = 0
+    while i < len(impl_runs) and j < len(mruns):
+        (alo, ahi, ao), (blo, bhi, bo) = impl_runs[i], mruns[j]
+        lo = max(alo, blo)
+        if ao != bo:
+            return lo, ao, bo
+        if ahi <= bhi:
+            i += 1
+        if bhi <= ahi:
+            j += 1
+    return None
+
+
+def check_table(ctx, res, name, fn, pre, suf, segments, md):
+    """segments: [(lo, hi, runs)] - the implementation's outcomes on pre+chr(c)+suf.  Oracle on the
+    candidates here; the model (driver `sweep`, every code point) is asked asynchronously:
+    -> (code points covered, pending comparison for `finish_table`)"""
+    lines, ncp = [], 0
+    for lo, hi, runs in segments:
         ncp += hi - lo + 1
+        tabstr = []
+        for rlo, rhi, o in runs:
+            if o.startswith('6:'):
+                tabstr += [pre + chr(c) + suf for c in range(rlo, min(rhi, rlo + 64) + 1)]
+        lines.append(f'sweep {fn} {md} {enc(pre)} {enc(suf)} {lo:x} {hi:x}' + fmt_table(table_for(tabstr)))
+        acc = sum(rhi - rlo + 1 for rlo, rhi, o in runs
+                  if o not in ('ValueError', 'TypeError', 'ok_False') and (o.startswith('ok_') or o[0] in 'N46'))
         res.count('sweep_accepted:' + fn, acc)
-        for cp, key, why in viols:
-            s = pre + chr(cp) + suf
-            op = {'host': 'host', 'proto': 'proto', 'port': 'port', 'classify': 'classify'}[fn]
-            res.violation(key, Case(op, s).record(), why, scope='sweep')
-        if model is not None and model[i] != impl:
-            res.disagreement({'op': 'sweep', 'fn': fn, 'prefix': pre, 'suffix': suf, 'lo': lo, 'hi': hi},
-                             impl[:400], model[i][:400], scope='sweep')
+        # ---- oracle
+        for cp in oracle_candidates(runs, lo, hi):
+            c = Case(OPS[fn], pre + chr(cp) + suf)
+            run_case(c, md)
+            if c.viol:
+                res.violation(c.viol[0], c.record(), c.viol[1], impl=c.impl, scope='sweep:' + name)
+        for rlo, rhi, o in runs:
+            if o not in ('ValueError', 'TypeError', 'ok_False') and not o.startswith('ok_') and o[0] not in 'N46':
+                sx = pre + chr(rlo) + suf
+                res.violation('c18:other-exception:' + fn, Case(OPS[fn], sx).record(),
+                              f'{fn}({sx!r}) raised {o}', scope='sweep:' + name)
+    fut = _POOL.submit(ctx.model, lines)
     res['evaluations'] += ncp
-    res['scopes']['sweep_strings'] = ncp
-    res['scopes']['sweep_contexts'] = {fn: (len(c) if ctx.deep else QUICK_SWEEPS[fn]) for fn, c in SWEEPS.items()}
-    res['scopes']['sweep_code_points_per_context'] = sum(h - l + 1 for l, h in segs)
-    return ctx.deep
+    return ncp, (name, fn, pre, suf, segments, lines, fut)
+
+
+def finish_table(res, pending):
+    """compare the model's answer (asked for asynchronously by `check_table`) with the table"""
+    name, fn, pre, suf, segments, lines, fut = pending
+    model = fut.result()
+    if model is None:
+        return
+    for (lo, hi, runs), line, m in zip(segments, lines, model):
+        if m != facts_c18.rle_text(runs):
+            d = first_difference(runs, m)
+            if d is None:
+                res.disagreement({'op': 'sweep', 'context': name, 'lo': lo, 'hi': hi},
+                                 facts_c18.rle_text(runs)[:300], m[:300], scope='sweep:' + name, line=line[:200])
+                continue
+            cp, io, mo = d
+            rec = Case(OPS[fn], pre + chr(cp) + suf).record()
+            res.disagreement(rec, io, mo, scope='sweep:' + name, line=f'{OPS[fn]} {enc_val(pre + chr(cp) + suf)}')
+
+
+def run_sweeps(ctx, res, level, tables=True):
+    """every code point in every position context: the proto / host / port contexts come from the
+    facts (the real functions run on all 0x110000 code points, memoised on the source text); the
+    `classify_host` contexts are run here (all code points on the thorough tier, the
+    decision-relevant subset otherwise)"""
+    md = ctx.facts.get('max_str_digits', sys.get_int_max_str_digits())
+    tables_wanted = tables
+    tables = ctx.facts.get('tables') if isinstance(ctx.facts, dict) else None
+    contexts = facts_c18.CONTEXTS
+    if not tables or set(tables) != set(contexts) or \
+            ctx.facts.get('source_key') != facts_c18.source_key(ctx.repo, contexts):
+        # no tables, or tables of another tree (facts taken from the cache after a failed extraction)
+        tables = facts_c18.compute_tables(ctx.repo)
+    total = 0
+    pending = []
+
+    def one(name, fn, pre, suf, segments):
+        nonlocal total
+        n, pend = check_table(ctx, res, name, fn, pre, suf, segments, md)
+        total += n
+        pending.append(pend)
+    if tables_wanted:
+        for name, (fn, pre, suf) in contexts.items():
+            one(name, fn, pre, suf, [(0, NCP - 1, [tuple(r) for r in tables[name]])])
+    full_classify = level >= 2
+    segs = [[0, NCP - 1]] if full_classify else quick_segments(ctx.rng)
+    cctx = facts_c18.CLASSIFY_CONTEXTS
+    if full_classify:
+        tabs = facts_c18.compute_tables(ctx.repo, cctx)
+        for name, (fn, pre, suf) in cctx.items():
+            one(name, fn, pre, suf, [(0, NCP - 1, [tuple(r) for r in tabs[name]])])
+    else:
+        names = list(cctx)[:4] if level == 0 else list(cctx)
+        for name in names:
+            fn, pre, suf = cctx[name]
+            one(name, fn, pre, suf,
+                [(lo, hi, [tuple(r) for r in facts_c18.sweep_runs(util, fn, pre, suf, lo, hi)]) for lo, hi in segs])
+    for pend in pending:
+        finish_table(res, pend)
+    res['scopes']['sweep_strings'] = total
+    res['scopes']['sweep_contexts'] = {'all_code_points': len(contexts) + (len(cctx) if full_classify else 0),
+                                       'classify_subset': 0 if full_classify else (4 if level == 0 else len(cctx))}
+    res['scopes']['classify_code_points_per_context'] = sum(h - l + 1 for l, h in segs)
+    return full_classify
 
 
 # ---------------------------------------------------------------- regex engine correspondence
@@ -704,25 +805,6 @@ def rx_encode(form, key='items'):
         else:
             items.append(atom(it))
     return ';'.join(items) if items else '-'
-
-
-def fast_class(node, flags):
-    """effective class by one findall over all code points (used for the random regexes only)"""
-    key = ('fast', repr(node), int(flags))
-    cache = facts_c18._probe_cache
-    if key not in cache:
-        from re import _parser, _compiler
-        st = _parser.State()
-        st.flags = flags
-        st.str = ''
-        pat = _compiler.compile(_parser.SubPattern(st, [node]), flags)
-        global _ALLSTR
-        try:
-            allstr = _ALLSTR
-        except NameError:
-            allstr = _ALLSTR = ''.join(map(chr, range(NCP)))
-        cache[key] = facts_c18.to_ranges([ord(x) for x in pat.findall(allstr)])
-    return cache[key]
 
 
 def random_regex(rng):
@@ -745,28 +827,30 @@ def random_regex(rng):
 
 
 def regex_cases(ctx, res, rng):
+    """the model's `re` semantics (Regex.lean) against the real engine: on every compiled pattern
+    found as a module global of util.py that is inside the linear fragment (informational - a tree
+    that validates without regexes simply has none), under all three ways of applying it, and on
+    random linear regexes"""
     cases = []
-    f = ctx.facts
     strings = [''.join(t) for n in range(0, 4) for t in itertools.product(ALPHABET, repeat=n)]
-    for role in ('protocol', 'label', 'numeric'):
-        form = f.get(role, {})
-        if 'unsupported' in form or 'items' not in form:
+    forms = ctx.facts.get('regexes') if isinstance(ctx.facts, dict) else None
+    for name, form in sorted((forms or {}).items()):
+        pat = getattr(util, name, None)
+        if 'unsupported' in form or 'items' not in form or not isinstance(pat, re.Pattern):
             res.count('regex_outside_fragment')
             continue
-        name = form['name']
-        RX_OBJECTS[name] = getattr(util, name)
-        raw = rx_encode(form, 'raw_items')      # as parsed: must agree under every mode
-        norm = rx_encode(form)                  # normalised for the mode actually used
+        RX_OBJECTS[name] = pat
+        raw = rx_encode(form)
         extra = ['a' * 62, 'a' * 63, 'a' * 64, 'a' * 63 + '\n', 'tcp\n', 't,p', '1\n', '\n', 'a\n\n']
-        for s in strings + extra:
+        for sx in strings + extra:
             for mode in ('match', 'fullmatch', 'search'):
-                cases.append(Case('rx', mode, raw, name, s))
-            cases.append(Case('rx', form['mode'], norm, name, s))
+                cases.append(Case('rx', mode, raw, name, sx))
+        res.count('module_regexes_compared')
     # random linear regexes: validates the regex semantics of the model and the extractor in general
-    real_probe = facts_c18.effective_class
-    facts_c18.effective_class = fast_class
+    if facts_c18._parser is None:
+        return cases
     try:
-        n = 400 if ctx.deep else 60
+        n = (400 if ctx.tier == 'thorough' else 150) if ctx.deep else 60
         pool = ['a', 'b', 'k', 'K', '0', '-', ',', '\n', 'K', 'ſ']
         made = 0
         tries = 0
@@ -785,68 +869,8 @@ def regex_cases(ctx, res, rng):
                 cases.append(Case('rx', rng.choice(('match', 'fullmatch', 'search')), encd, name, s))
         res['scopes']['random_linear_regexes'] = made
     finally:
-        facts_c18.effective_class = real_probe
+        pass
     return cases
-
-
-# ---------------------------------------------------------------- fact-directed witness synthesis
-def cls_set(ranges, limit=64):
-    out = []
-    for lo, hi in ranges:
-        for cp in range(lo, hi + 1):
-            out.append(cp)
-            if len(out) > 4096:
-                return out
-    return out
-
-
-def witness_cases(facts):
-    """strings built from 'generated class minus spec class' (and spec minus generated), the
-    anchor kinds and the match modes found in the facts"""
-    spec = {
-        'protocol': [LET, PROTO_TAIL],
-        'label': [LET | DIG | {'_'}, LABEL, LET | DIG | {'_'}],
-        'numeric': [DIG],
-    }
-    place = {
-        ('protocol', 0): lambda ch: [('proto', ch + 'cp')],
-        ('protocol', 1): lambda ch: [('proto', 't' + ch + 'p'), ('proto', 'tc' + ch)],
-        ('label', 0): lambda ch: [('host', ch + 'b.com'), ('classify', ch + '.com')],
-        ('label', 1): lambda ch: [('host', 'a' + ch + 'b.com')],
-        ('label', 2): lambda ch: [('host', 'a' + ch + '.com'), ('host', 'ex.c' + ch)],
-        ('numeric', 0): lambda ch: [('host', 'ex.' + ch), ('host', 'ex.1' + ch)],
-    }
-    out = []
-    for role in ('protocol', 'label', 'numeric'):
-        form = facts.get(role, {})
-        if 'items' not in form:
-            continue
-        ci = 0
-        atoms = []
-        for it in form['items']:
-            atoms += it[1] if it[0] == 'opt' else [it]
-        for a in atoms:
-            if a[0] != 'cls':
-                continue
-            got = set(map(chr, cls_set(form['classes'][a[1]])))
-            want = spec[role][ci] if ci < len(spec[role]) else set()
-            for ch in sorted(got - want)[:40] + sorted(want - got)[:40]:
-                for op, s in place.get((role, ci), lambda ch: [])(ch):
-                    out.append(Case(op, s))
-            ci += 1
-        ends = [a[1] for a in atoms if a[0] == 'eos']
-        exemplar = {'protocol': [('proto', 'tcp')], 'label': [('host', 'example.com'), ('classify', 'example.com')],
-                    'numeric': [('host', 'example.1')]}[role]
-        for op, s in exemplar:
-            if 'dollar' in ends or not ends:
-                out.append(Case(op, s + '\n'))
-            if not ends:
-                out += [Case(op, s + '!'), Case(op, s + ' x')]
-            if form.get('mode') == 'search':
-                out += [Case(op, '!' + s), Case(op, '1' + s)]
-            if not any(a[0] == 'bos' for a in atoms) and form.get('mode') == 'search':
-                out.append(Case(op, '\n' + s))
-    return out
 
 
 # ---------------------------------------------------------------- generators
@@ -946,6 +970,8 @@ def generated_cases(rng, n):
             out.append(Case('split', mutate(rng, text)))
         proto = gen_protocol(rng)
         out.append(Case('mksvc', proto, text))
+        if isinstance(p, (int, str)):
+            out.append(Case('mksvco', proto if rng.random() < 0.8 else mutate(rng, proto), h, p))
         out.append(Case('svc', f'{proto}://{text}'))
         out.append(Case('svc', mutate(rng, f'{proto}://{text}')))
         out.append(Case('proto', mutate(rng, proto)))
@@ -959,18 +985,15 @@ def default_cases(rng, n):
     out = []
     hosts = ['example.com', '', None, 'h.x', '1.2.3.4', '::1', 5, 1.5, 'bad host', 'ex.com\n']
     ports = [80, '8080', None, 0, '', 65536, '65535', True, 1.5, 'x']
-    protos = ['tcp', 'SSL', None, '', 5, 1.5, 't,p', 'ws']
+    protos = ['tcp', 'SSL', None, '', 5, 1.5, 't,p', 'ws', '\u212a\u212a', 0, False, []]
     for _ in range(n):
         h = rng.choice(['example.com', 'a.b', '1.2.3.4', '[::1]', '::1', '', '', 'x y', gen_hostname(rng)])
         p = rng.choice(['80', '', '', '65536', '0', '8080', 'x'])
         text = rng.choice([h, f'{h}:{p}', f'{h}:{p}', f':{p}', f'[{h}]', mutate(rng, f'{h}:{p}')])
-        if not text.isascii():
-            text = 'example.com'
         out.append(Case('addrd', text, Other(rng.choice(hosts)), Other(rng.choice(ports))))
-        proto = rng.choice(['tcp', 'SSL', 'ws', 't+x', 'Tcp', 'bad proto', ''])
+        proto = rng.choice(['tcp', 'SSL', 'ws', 't+x', 'Tcp', 'bad proto', '', '\u212a\u212a', 'T\u0130', 'tc\u03a3',
+                            'S\u017fL'])
         stext = rng.choice([f'{proto}://{text}', f'{proto}://{text}', proto, text, f'{proto}://', mutate(rng, f'{proto}://{text}')])
-        if not stext.isascii():
-            stext = 'tcp://example.com'
         table = {(None, 'r'): rng.choice(protos)}
         keys = {proto, proto.lower(), stext, stext.lower(), stext.split('://', 1)[0], stext.split('://', 1)[0].lower()}
         d = table[(None, 'r')]
@@ -1059,78 +1082,202 @@ def corpus_cases(verif):
     return out
 
 
+def eq_cases(rng, n):
+    """pairs of NetAddress / Service objects: equal content written the same way and differently
+    ('80' vs 80, an IP literal vs the address object, upper- vs lower-case protocol), different
+    content - `==`, `!=` and `hash` are what "gives an equal object" is observed with"""
+    out = []
+    hosts = ['a.com', 'A.com', 'b.com', 'a.com.', '1.2.3.4', ipaddress.IPv4Address('1.2.3.4'), '1.2.3.5',
+             '::1', ipaddress.IPv6Address('::1'), '0:0::1', 'fe80::1%eth0', '-bad-', 5]
+    ports = [80, '80', '080', 81, 65535, '65535', 0, True]
+    protos = ['tcp', 'TCP', 'ssl', 't,p']
+    for _ in range(n):
+        h1, h2 = rng.choice(hosts), rng.choice(hosts)
+        p1, p2 = rng.choice(ports), rng.choice(ports)
+        if rng.random() < 0.3:
+            h2, p2 = h1, p1
+        out.append(Case('eqaddr', h1, p1, h2, p2))
+        if isinstance(h1, (str, ipaddress.IPv4Address)) and isinstance(h2, (str, ipaddress.IPv4Address)):
+            a1 = f'{h1}:{p1}' if ':' not in str(h1) else f'[{h1}]:{p1}'
+            a2 = f'{h2}:{p2}' if ':' not in str(h2) else f'[{h2}]:{p2}'
+            r1, r2 = rng.choice(protos), rng.choice(protos)
+            if rng.random() < 0.3:
+                r2, a2 = r1, a1
+            out.append(Case('eqsvc', r1, a1, r2, a2))
+    return out
+
+
+def related_cases(rng, n):
+    """families of strings that a normalising memo would confuse (case variants, U+212A / U+017F /
+    U+0130 for k / s / i, surrounding blanks, a final newline or dot, leading zeros, full-width
+    and Arabic digits), each family asked in a random order, valid members first as often as last"""
+    out = []
+
+    def variants(sx):
+        vs = {sx, sx.upper(), sx.lower(), sx.swapcase(), sx + '\n', sx + ' ', ' ' + sx, sx + '.', sx + '..',
+              sx.replace('k', '\u212a'), sx.replace('s', '\u017f'), sx.replace('i', '\u0130'),
+              sx.replace('K', '\u212a'), sx.replace('S', '\u017f'), sx.replace('I', '\u0131'), sx.strip('.'),
+              '0' + sx, sx.replace('1', '\uff11'), sx.replace('0', '\u0660'), sx.replace('-', '_'), sx + '\x00'}
+        return sorted(vs)
+    seeds_host = ['kiss.example.com', 'SKI.io', 'a-b.c-d.net', 'x1.y2', 'ex.com', 'k.s.i']
+    seeds_proto = ['ssl', 'tcp', 'ws', 'ski+k', 'Kiss', 'irc.s-1']
+    seeds_port = ['80', '8080', '65535', '1', '010', '65536']
+    while len(out) < n:
+        fam = rng.choice(('host', 'proto', 'port'))
+        if fam == 'host':
+            base = rng.choice(seeds_host + [gen_hostname(rng)])
+            ops = ('host', 'classify')
+        elif fam == 'proto':
+            base = rng.choice(seeds_proto + [gen_protocol(rng)])
+            ops = ('proto',)
+        else:
+            base = rng.choice(seeds_port + [str(rng.randrange(1, 70000))])
+            ops = ('port',)
+        vs = variants(base)
+        rng.shuffle(vs)
+        for _ in range(2):
+            for v in vs:
+                for op in ops:
+                    out.append(Case(op, v))
+            vs.reverse()
+        if fam == 'host':
+            for v in vs[:6]:
+                out.append(Case('addr', v + ':80'))
+                out.append(Case('svc', 'tcp://' + v + ':80'))
+    return out[:n]
+
+
 RULE = ('case = one call of validate_protocol / is_valid_hostname / classify_host / validate_port / '
         '_split_address / NetAddress(..)+str+from_string / Service(..)+str+from_string / '
-        'NetAddress.from_string / Service.from_string / compiled-regex application, compared with the '
-        'Lean model and judged by the grammar oracle; exhaustive scopes: every code point (thorough; a '
-        'decision-relevant subset in quick) in each position context, all strings over the 14-symbol '
-        'critical alphabet, all strings over {a 1 . : [ ] % /} for the address splitter, all ints '
-        '-2..65537 with five string renderings; non-trivial = the implementation accepted the input '
-        '(returned a value); distinct = distinct driver input lines')
+        'NetAddress.from_string / Service.from_string (with and without default_func) / == of two '
+        'objects / compiled-regex application, compared with the Lean model and judged by the grammar '
+        'oracle; exhaustive scopes: EVERY code point in each of the 23 position contexts of '
+        'validate_protocol / is_valid_hostname / validate_port (the classify_host contexts: every code '
+        'point on the thorough tier, a decision-relevant subset otherwise), all strings over the '
+        '15-symbol critical alphabet, all strings over {a 1 . : [ ] % /} for the address splitter, all '
+        'ints -2..65537 with five string renderings; non-trivial = the implementation accepted the '
+        'input (returned a value); distinct = distinct driver input lines')
+
+
+def need_model(ctx):
+    """the driver does not import the generated facts, so it builds even when a facts theorem
+    breaks; not having it is toolchain trouble (exit 2), never a quiet pass without the model"""
+    if not ctx.have_model and not os.environ.get('VERIF_ALLOW_NO_MODEL'):
+        from lib.vcheck import MachineryError
+        raise MachineryError('the model driver drv_c18 could not be built (lake build drv_c18)')
+
+
+_DONE = set()       # (source key, scope) of deterministic scopes this process has already passed
 
 
 def run(ctx):
+    need_model(ctx)
     init(ctx.repo)
     res = Results()
     rng = ctx.rng
-    # (a) corpus of past failures, then the fact-directed witnesses
-    evaluate(ctx, corpus_cases(ctx.verif), res, 'corpus')
-    evaluate(ctx, witness_cases(ctx.facts), res, 'fact_directed_witnesses')
-    evaluate(ctx, type_cases(), res, 'argument_types')
-    impl_only_checks(res)
-    evaluate(ctx, length_cases(), res, 'lengths_62_65_252_255')
-    # (b) the model's regex semantics and the extracted normal forms vs the real engine
+    # depth: 0 quick, 1 quick tier asked to look deeper (source drift / broken obligation; has to
+    # stay within ~1 minute), 2 thorough
+    level = 2 if ctx.tier == 'thorough' else (1 if ctx.deep else 0)
+    key = facts_c18.source_key(ctx.repo, facts_c18.CONTEXTS)
+
+    def once(scope, fn):
+        """the scopes that do not depend on the seed give the same result when lib/vcheck.py runs
+        the harness a second time at depth on the same tree: do them once per process"""
+        if (key, scope) in _DONE:
+            res['scopes'].setdefault('not_repeated_in_second_pass', []).append(scope)
+            return
+        before = (res.n_violations, res.n_disagreements)
+        fn()
+        if before == (res.n_violations, res.n_disagreements):
+            _DONE.add((key, scope))
+
+    # (a) corpus of past failures, argument types, lengths around the limits
+    once('fixed', lambda: (evaluate(ctx, corpus_cases(ctx.verif), res, 'corpus'),
+                           evaluate(ctx, type_cases(), res, 'argument_types'),
+                           impl_only_checks(res),
+                           evaluate(ctx, length_cases(), res, 'lengths_62_65_252_255')))
+    # (b) every code point in every position context (the facts' tables: oracle + model)
+    full = [False]
+    if level == 1 and (key, 'sweeps0') in _DONE:
+        run_sweeps(ctx, res, level, tables=False)       # only what level 1 adds: all classify contexts
+    else:
+        once(f'sweeps{level}', lambda: full.__setitem__(0, run_sweeps(ctx, res, level, tables=True)))
+    # (c) the model's regex semantics vs the real engine
     evaluate(ctx, regex_cases(ctx, res, rng), res, 'regex_engine')
-    # (c) exhaustive: critical alphabet
-    maxlen = 5 if ctx.deep and not res.failed else 4
-    done = 0
-    for n in range(0, maxlen + 1):
-        if res.failed and n > 3:
-            break
-        cs = []
-        for t in itertools.product(ALPHABET, repeat=n):
-            s = ''.join(t)
-            cs += [Case('proto', s), Case('host', s), Case('classify', s), Case('port', s)]
-        evaluate(ctx, cs, res, 'alphabet14')
-        done = n
-    res['scopes']['alphabet14_max_len'] = done
-    maxlen2 = 6 if ctx.deep and not res.failed else 5
-    done2 = 0
-    for n in range(0, maxlen2 + 1):
-        if res.failed and n > 4:
-            break
-        cs = []
-        for t in itertools.product(ALPHABET2, repeat=n):
-            s = ''.join(t)
-            cs += [Case('split', s), Case('addr', s)]
-            if n <= 4:
-                cs.append(Case('svc', 't+://' + s))
-        evaluate(ctx, cs, res, 'alphabet_addr8')
-        done2 = n
-    res['scopes']['alphabet_addr8_max_len'] = done2
-    # (d) exhaustive: integers and their renderings
-    evaluate(ctx, int_cases(-2, 65537), res, 'ints_-2_65537')
-    evaluate(ctx, ip4_cases(rng, 4000 if ctx.deep else 800), res, 'ipv4_concrete')
-    # (e) generated objects, strings from and near the grammar
-    evaluate(ctx, generated_cases(rng, 20000 if ctx.deep and not res.failed else 1500), res, 'generated')
-    evaluate(ctx, default_cases(rng, 12000 if ctx.deep and not res.failed else 1500), res, 'default_func')
-    # (f) every code point in every position context
-    full = False
-    if not res.failed or not ctx.deep:
-        full = run_sweeps(ctx, res)
+    # (d) exhaustive: critical alphabet
+    maxlen = 5 if level == 2 and not res.failed else 4
+    done = [0, 0]
+
+    def alphabet15():
+        for n in range(0, maxlen + 1):
+            if res.failed and n > 3:
+                break
+            cs = []
+            for t in itertools.product(ALPHABET, repeat=n):
+                s = ''.join(t)
+                cs += [Case('proto', s), Case('host', s), Case('classify', s), Case('port', s)]
+            evaluate(ctx, cs, res, 'alphabet15')
+            done[0] = n
+    maxlen2 = 6 if level == 2 and not res.failed else 5
+
+    def alphabet_addr8():
+        for n in range(0, maxlen2 + 1):
+            if res.failed and n > 4:
+                break
+            cs = []
+            for t in itertools.product(ALPHABET2, repeat=n):
+                s = ''.join(t)
+                cs += [Case('split', s), Case('addr', s)]
+                if n <= 4:
+                    cs.append(Case('svc', 't+://' + s))
+            evaluate(ctx, cs, res, 'alphabet_addr8')
+            done[1] = n
+    once(f'alphabet15:{maxlen}', alphabet15)
+    once(f'alphabet_addr8:{maxlen2}', alphabet_addr8)
+    if (key, f'alphabet15:{maxlen}') in _DONE:
+        done[0] = maxlen
+    if (key, f'alphabet_addr8:{maxlen2}') in _DONE:
+        done[1] = maxlen2
+    res['scopes']['split_rows_in_facts'] = len(ctx.facts.get('split_table', [])) if isinstance(ctx.facts, dict) else 0
+    res['scopes']['alphabet15_max_len'] = done[0]
+    res['scopes']['alphabet_addr8_max_len'] = done[1]
+    # (e) exhaustive: integers and their renderings
+    once('ints', lambda: evaluate(ctx, int_cases(-2, 65537), res, 'ints_-2_65537'))
+    evaluate(ctx, ip4_cases(rng, (4000, 2000, 800)[2 - level]), res, 'ipv4_concrete')
+    # (f) generated objects, strings from and near the grammar, equality
+    big = not res.failed
+    evaluate(ctx, generated_cases(rng, (1500, 5000, 20000)[level] if big else 1500), res, 'generated')
+    evaluate(ctx, default_cases(rng, (1500, 4000, 12000)[level] if big else 1500), res, 'default_func')
+    evaluate(ctx, eq_cases(rng, (600, 1500, 4000)[level]), res, 'equality')
+    # (g) the answers are functions of the argument: the same questions again in a shuffled order
+    # (a memo keyed on a normalised copy of the string, or any other carried state, answers a
+    # string with what it computed for a relative asked earlier)
+    evaluate(ctx, related_cases(rng, (4000, 8000, 30000)[level]), res, 'related_strings_shuffled')
     for c in generated_cases(random.Random(ctx.seed + 1), 2)[:4]:
         run_case(c, 4300)
         res.sample({'line': c.line[:200], 'impl': c.impl[:200]})
     # report the shortest failing input first
     res['violations'].sort(key=lambda v: (sum(len(a) for a in v['case'].get('args', [])), v['key']))
     res['disagreements'].sort(key=lambda d: len(d.get('line', '')) or 10 ** 6)
-    return res.finish(RULE, exhaustive={'alphabet14_len': done, 'alphabet_addr8_len': done2,
-                                        'ints': '-2..65537', 'all_code_points': full})
+    return res.finish(RULE, exhaustive={'alphabet15_len': done[0], 'alphabet_addr8_len': done[1],
+                                        'ints': '-2..65537', 'all_code_points_proto_host_port': True,
+                                        'all_code_points_classify': bool(full[0])})
+
+
+def deep_nested(depth):
+    x = []
+    for _ in range(depth):
+        x = [x]
+    return x
 
 
 def impl_only_checks(res):
     """inputs that cannot be put on the driver's line protocol (integers beyond the int->str digit
-    limit, megabyte strings): only the exception-type clause of the property is checked"""
+    limit, megabyte strings): only the exception-type clause of the property is checked.  Then the
+    two things the property's quantifier leaves out, MEASURED and reported, never judged (see
+    props/C18.json `assumptions`): arguments whose own str()/repr() fails (a list nested deeper
+    than the recursion limit inside the f-string of the error message) and `==` against an object
+    of another type."""
     probes = [('validate_port', util.validate_port, 10 ** 5000), ('validate_port', util.validate_port, -10 ** 5000),
               ('validate_port', util.validate_port, '9' * 100000),
               ('is_valid_hostname', util.is_valid_hostname, 'a.' * 500000),
@@ -1139,6 +1286,16 @@ def impl_only_checks(res):
               ('validate_protocol', util.validate_protocol, 'a' + '+' * 1000000 + '\n'),
               ('NetAddress.from_string', util.NetAddress.from_string, '[' * 100000),
               ('Service.from_string', util.Service.from_string, '://' * 100000)]
+    # containers that contain themselves print as '[[...]]': inside the property (TypeError expected)
+    selfref = []
+    selfref.append(selfref)
+    selfdict = {}
+    selfdict['k'] = selfdict
+    for name, fn in [('validate_port', util.validate_port), ('validate_protocol', util.validate_protocol),
+                     ('is_valid_hostname', util.is_valid_hostname), ('classify_host', util.classify_host),
+                     ('NetAddress.from_string', util.NetAddress.from_string),
+                     ('Service.from_string', util.Service.from_string)]:
+        probes += [(name, fn, selfref), (name, fn, selfdict), (name, fn, (selfref, 1))]
     for name, fn, arg in probes:
         try:
             r = fn(arg)
@@ -1149,17 +1306,50 @@ def impl_only_checks(res):
         except VT:
             pass
         except Exception as e:
-            res.violation('c18:other-exception:' + name, {'op': name, 'args': ['<huge>']},
-                          f'{name}(<huge input>) raised {exc_name(e)}')
+            res.violation('c18:other-exception:' + name, {'op': name, 'args': ['<huge or self-containing>']},
+                          f'{name}(<huge / self-containing input>) raised {exc_name(e)}')
         res.count('impl_only_probes')
     res['evaluations'] += len(probes)
+    # ---- outside the quantifier: measured
+    notes = {}
+    deep = deep_nested(100000)
+    for name, fn in [('validate_port', util.validate_port), ('validate_protocol', util.validate_protocol),
+                     ('is_valid_hostname', util.is_valid_hostname), ('classify_host', util.classify_host),
+                     ('NetAddress.from_string', util.NetAddress.from_string),
+                     ('Service.from_string', util.Service.from_string)]:
+        try:
+            fn(deep)
+            notes['deep_list:' + name] = 'returned'
+        except Exception as e:      # noqa: BLE001 - measured
+            notes['deep_list:' + name] = exc_name(e)
+    # (dismantle iteratively: dropping a 100000-deep list recursively can itself overflow the C stack)
+    while deep:
+        deep = deep[0]
+    try:
+        a = util.NetAddress('a.com', 80)
+        sv = util.Service('tcp', 'a.com:80')
+        for label, x, y in [('NetAddress==None', a, None), ('NetAddress==int', a, 5), ('NetAddress==str', a, 'a.com:80'),
+                            ('NetAddress==Service', a, sv), ('Service==NetAddress', sv, a), ('Service==None', sv, None)]:
+            try:
+                notes['foreign_eq:' + label] = repr(x == y)
+            except Exception as e:      # noqa: BLE001 - measured
+                notes['foreign_eq:' + label] = exc_name(e)
+    except Exception as e:      # noqa: BLE001
+        notes['foreign_eq'] = 'could not construct: ' + exc_name(e)
+    res['scopes']['outside_quantifier_measured'] = notes
 
 
 def replay(ctx, case):
+    need_model(ctx)
     init(ctx.repo)
     if 'case' in case and isinstance(case['case'], dict):
         case = case['case']
+    elif 'op' not in case and case.get('disagreements'):
+        case = case['disagreements'][0]['case']
     res = Results()
+    if case.get('op') in ('sweep', None) or str(case.get('op', '')).count('.'):
+        # a whole-table disagreement or an impl-only probe: nothing smaller to replay than the run
+        return run(ctx)
     args = []
     for i, t in enumerate(case['args']):
         if case['op'] == 'rx':
@@ -1174,4 +1364,8 @@ def replay(ctx, case):
         RX_OBJECTS[name] = getattr(util, name, None) or re.compile(eval(case['pattern']), case['flags'])
     evaluate(ctx, [Case(case['op'], *args)], res, 'replay')
     res.sample(case)
+    if not res.failed and not os.environ.get('VERIF_REPLAY_SINGLE'):
+        # the recorded answer may depend on what was asked before it (carried state): nothing
+        # smaller reproduces it than the run that found it
+        return run(ctx)
     return res.finish('replay of one recorded case')
